@@ -164,9 +164,13 @@ void h_blockcmp(void)
 
 /* ---------------------------------------------------------------- is_hash_matching */
 static struct failed_struct FAILED[NFAIL];
-static unsigned char BLK[NFAIL][sizeof(struct snapraid_block) + HASH_MAX];
+/* separate 1-D objects, never rows of a 2-D array (cbmc defect of DESIGN 2.3; also far cheaper) */
+#define BLKSZ (sizeof(struct snapraid_block) + HASH_MAX)
+static unsigned char BLK_0[BLKSZ], BLK_1[BLKSZ], BLK_2[BLKSZ];
+static unsigned char *const BLK[3] = { BLK_0, BLK_1, BLK_2 };
 static struct snapraid_file FILES[NFAIL];
-static unsigned char DATA[NFAIL + LEV_MAX][BS];
+static unsigned char DATA_0[BS], DATA_1[BS], DATA_2[BS], DATA_3[BS], DATA_4[BS], DATA_5[BS], DATA_6[BS], DATA_7[BS], DATA_8[BS];
+static unsigned char *const DATA[9] = { DATA_0, DATA_1, DATA_2, DATA_3, DATA_4, DATA_5, DATA_6, DATA_7, DATA_8 };
 
 static void setup_failed(void)
 {
@@ -301,7 +305,8 @@ void h_repair_step(void)
 	unsigned map[NFAIL], j, l, m, has_hash = 0, r_expect, attempts_expect, k, first_ok;
 	void *buffer[NFAIL + LEV_MAX];
 	void *recov[LEV_MAX];
-	static unsigned char RECOV[LEV_MAX][BS];
+	static unsigned char RECOV_0[BS], RECOV_1[BS], RECOV_2[BS], RECOV_3[BS], RECOV_4[BS], RECOV_5[BS];
+	unsigned char *const RECOV[LEV_MAX] = { RECOV_0, RECOV_1, RECOV_2, RECOV_3, RECOV_4, RECOV_5 };
 	int ret;
 	VERIF_INPUTS();
 	setup_failed();
